@@ -10,9 +10,22 @@
      [t |-> "bol"] / [t |-> "eol"]        ^ / $ without the m flag: beginning / end of the subject
      [t |-> "cap", name |-> bytes, a |-> r]   (?P<name>r): matches as r and records where
      [t |-> "grp", a |-> r]               (r): an unnamed capturing group - it only takes an index
+     [t |-> "ci", a |-> r]                (?i)r at the very beginning: r matches without regard to (ASCII) letter case
    Subjects are arbitrary byte strings; "any" and negated classes consume one rune as Go decodes it. *)
 EXTENDS Integers, Sequences, Utf8
 
+\* case folding over ASCII letters: a letter becomes the class of its two cases, a class gains the other cases
+\* (subjects are ASCII where this node is used: Go additionally folds a few non-ASCII runes such as U+212A onto letters)
+IsLetter(c) == (c >= 65 /\ c <= 90) \/ (c >= 97 /\ c <= 122)
+Other(c) == IF c >= 97 THEN c - 32 ELSE c + 32
+RECURSIVE BothCases(_)
+BothCases(set) == IF set = <<>> THEN <<>> ELSE (IF IsLetter(set[1]) THEN <<set[1], Other(set[1])>> ELSE <<set[1]>>) \o BothCases(Tail(set))
+RECURSIVE Fold(_)
+Fold(r) == CASE r.t = "lit" -> IF IsLetter(r.c) THEN [t |-> "cls", set |-> <<r.c, Other(r.c)>>, neg |-> FALSE] ELSE r
+             [] r.t = "cls" -> [r EXCEPT !.set = BothCases(r.set)]
+             [] r.t \in {"cat", "alt"} -> [r EXCEPT !.a = Fold(r.a), !.b = Fold(r.b)]
+             [] r.t \in {"star", "plus", "opt", "cap", "grp", "ci"} -> [r EXCEPT !.a = Fold(r.a)]
+             [] OTHER -> r
 RECURSIVE Ends(_, _, _)
 \* closure of a position set under one more iteration of r
 RECURSIVE StarClose(_, _, _)
@@ -36,6 +49,7 @@ Ends(r, s, i) ==
     [] r.t = "bol"  -> IF i = 1 THEN {i} ELSE {}
     [] r.t = "eol"  -> IF i = Len(s) + 1 THEN {i} ELSE {}
     [] r.t \in {"cap", "grp"} -> Ends(r.a, s, i)
+    [] r.t = "ci"   -> Ends(Fold(r.a), s, i)
 
 FullMatch(r, s) == (Len(s) + 1) \in Ends(r, s, 1)           \* ^(?:r)$
 Search(r, s)    == \E i \in 1..(Len(s) + 1) : Ends(r, s, i) # {}   \* unanchored
@@ -59,6 +73,7 @@ ReText(r) ==
     [] r.t = "eol"  -> <<36>>
     [] r.t = "cap"  -> <<40, 63, 80, 60>> \o r.name \o <<62>> \o ReText(r.a) \o <<41>>      \* (?P<name>...)
     [] r.t = "grp"  -> <<40>> \o ReText(r.a) \o <<41>>
+    [] r.t = "ci"   -> <<40, 63, 105, 41>> \o ReText(r.a)                    \* (?i)...
 
 \* handy constructors
 RLit(x) == [t |-> "lit", c |-> x]
@@ -75,6 +90,7 @@ RBol == [t |-> "bol"]
 REol == [t |-> "eol"]
 RCap(n, a) == [t |-> "cap", name |-> n, a |-> a]
 RGrp(a) == [t |-> "grp", a |-> a]
+RCi(a) == [t |-> "ci", a |-> a]
 
 (* ---- submatches: leftmost-first, as Go's regexp (and Perl) choose them.
    Prio(r, s, i) lists the ways r can match at position i in the order a backtracking matcher tries them: the left
@@ -100,6 +116,7 @@ Prio(r, s, i) ==
          LET E == Ends(r, s, i) IN IF E = {} THEN <<>> ELSE << [e |-> CHOOSE x \in E : TRUE, c |-> {}] >>
     [] r.t = "cap"  -> LET pa == Prio(r.a, s, i) IN [k \in DOMAIN pa |-> [e |-> pa[k].e, c |-> Over(pa[k].c, {<<r.name, i, pa[k].e>>})]]
     [] r.t = "grp"  -> Prio(r.a, s, i)
+    [] r.t = "ci"   -> Prio(Fold(r.a), s, i)
     [] r.t = "cat"  -> LET pa == Prio(r.a, s, i) IN
                        ConcatAll([k \in DOMAIN pa |-> LET pb == Prio(r.b, s, pa[k].e) IN [m \in DOMAIN pb |-> [e |-> pb[m].e, c |-> Over(pa[k].c, pb[m].c)]]])
     [] r.t = "alt"  -> Prio(r.a, s, i) \o Prio(r.b, s, i)
